@@ -1148,4 +1148,35 @@ theorem decl_force (ch : Nat → Bool) (d : Decl) (hs : shapeD d = true) :
       simp only [globalLitCtl] at hev
       exact (frcL ch body h1.2 l hev).mono (fun b hb => h3 b (by simp only [blksE]; exact List.mem_cons_of_mem _ hb))
 
+
+/-! ### func granularity: the scope found by `searchScopes` -/
+
+theorem searchScopes_spec (scopes : List (Nat × Nat)) (line : Nat) (h : searchScopes scopes line ≠ 0) :
+    ∃ p, scopes[searchScopes scopes line]? = some p ∧ p.1 < line ∧ line < p.2 := by
+  unfold searchScopes at h ⊢
+  have key : ∀ (l : List ((Nat × Nat) × Nat)) (init : Nat),
+      (∀ q ∈ l, scopes[q.2]? = some q.1) →
+      let r := l.foldl (fun idx (p : (Nat × Nat) × Nat) => if p.1.1 < line && line < p.1.2 then p.2 else idx) init
+      r = init ∨ ∃ p, scopes[r]? = some p ∧ p.1 < line ∧ line < p.2 := by
+    intro l
+    induction l with
+    | nil => intro init _; exact Or.inl rfl
+    | cons q rest ih =>
+      intro init hq
+      simp only [List.foldl_cons]
+      have hrest : ∀ q' ∈ rest, scopes[q'.2]? = some q'.1 := fun q' h' => hq q' (List.mem_cons_of_mem _ h')
+      by_cases hc : (decide (q.1.1 < line) && decide (line < q.1.2)) = true
+      · simp only [hc, if_true]
+        rcases ih q.2 hrest with h1 | h1
+        · right
+          rw [h1]
+          simp only [Bool.and_eq_true, decide_eq_true_eq] at hc
+          exact ⟨q.1, hq q (List.mem_cons_self ..), hc.1, hc.2⟩
+        · exact Or.inr h1
+      · simp only [hc]
+        exact ih init hrest
+  rcases key scopes.zipIdx 0 (fun q hq => List.mem_zipIdx_iff_getElem?.mp hq) with h1 | h1
+  · exact absurd h1 h
+  · exact h1
+
 end GoatSpec
